@@ -274,8 +274,28 @@ def check_load_tree(ctx):
                                 return False
             return True
 
-        p = path_avoiding(an, fn, binds[0], lambda n: n is head, is_gateway, edge_filter=env_guard_edge,
-                          exceptions=False)
+        def unknown_key_edge(a, b, lbl):
+            """the outcome that says "the schema has no field for this key": nothing of the document's that belongs to a field
+            is dropped on that edge (the key is not stored either: every store goes through the gateway)"""
+            if a.kind != "test" or a.ast is None:
+                return False
+            e = a.ast
+            tgt = None
+            if isinstance(e, ast.Compare) and len(e.ops) == 1 and isinstance(e.comparators[0], ast.Constant) and e.comparators[0].value is None:
+                if (isinstance(e.ops[0], ast.Is) and lbl is True) or (isinstance(e.ops[0], ast.IsNot) and lbl is False):
+                    tgt = e.left
+            elif isinstance(e, ast.UnaryOp) and isinstance(e.op, ast.Not) and lbl is True:
+                tgt = e.operand
+            elif isinstance(e, ast.Name) and lbl is False:
+                tgt = e
+            if isinstance(tgt, ast.Name):
+                srcs = value_sources(fn, tgt, a)
+                return bool(srcs) and all(k == "expr" and isinstance(pl, ast.Call) and isinstance(pl.func, ast.Attribute)
+                                          and pl.func.attr in ("_get_field", "get") for k, pl in srcs)
+            return False
+
+        p = path_avoiding(an, fn, binds[0], lambda n: n is head, is_gateway,
+                          edge_filter=lambda a, b, lbl: env_guard_edge(a, b, lbl) and not unknown_key_edge(a, b, lbl), exceptions=False)
         for n in g.nodes:
             if is_gateway(n) and n.kind == "call" and len(n.ast.args) >= 2:
                 k_ok = any(k == "iter" and pl[1] == 0 for k, pl in value_sources(fn, n.ast.args[0], n))
@@ -663,7 +683,7 @@ def check_taint(ctx):
                     ok_all = ok_all and ok
                     whys.append("argument %d (%s): %s" % (idx, form, why))
                 ctx.ob("taint", fn, call, ok_all, "; ".join(whys), node=node)
-    ctx.need(nsites >= 10, "fewer than 10 delegation sites to the builtin containers found (%d)" % nsites)
+    ctx.need(nsites >= 4, "fewer than 4 delegation sites to the builtin containers found (%d)" % nsites)
     ctx.count("delegation_sites", nsites)
 
 
